@@ -336,6 +336,7 @@ func c17RequestRun(t *testing.T, tape *simrt.Tape, o simwork.Opts) *simwork.Resu
 		return res
 	}
 
+	netMark := verifNetStart()
 	p := simwork.Bubble(t, func(t *testing.T) {
 		simnet.Reset()
 		c17ResetPools()
@@ -400,6 +401,7 @@ func c17RequestRun(t *testing.T, tape *simrt.Tape, o simwork.Opts) *simwork.Resu
 			obs.ClientErr = result.GetError().GetMessage()
 		}
 	})
+	verifNetFaults(res, netMark)
 	if p != nil {
 		c17AddViolation(res, "c17/panic", "panic: %v", p)
 	}
